@@ -320,7 +320,7 @@ struct Slot {
     yields_in_row: u32,
 }
 
-#[derive(Clone, Debug, Default, serde::Serialize)]
+#[derive(Clone, Debug, Default, serde::Serialize, serde::Deserialize)]
 pub struct Stats {
     pub steps: u64,
     pub switches: u64,
@@ -342,7 +342,7 @@ pub struct Stats {
     pub sched_hash: u64,
 }
 
-#[derive(Clone, Debug, serde::Serialize)]
+#[derive(Clone, Debug, serde::Serialize, serde::Deserialize)]
 pub struct ProbeEv {
     pub step: u64,
     pub tid: usize,
